@@ -119,6 +119,7 @@ int tr_open_sim(void *sock)
 	sim_sched_point();
 	p.open_count++;
 	p.wait_returned_success = false; // a reconnect lies between the wait and the next query
+	p.notify_unanswered = false;
 	p.started = true;
 	p.stopping = false;
 	sim_log(EV_IO, (1u << 8) | (unsigned)p.si, p.open_count);
@@ -283,6 +284,13 @@ int tr_recv_sim(const void *sock, void *buf, const size_t len, const time_t time
 			sim_log(EV_IO, (3u << 8) | (unsigned)p.si, (uint64_t)-2);
 			return TR_WOULDBLOCK;
 		}
+		if (p.in_wait && p.notify_unanswered) {
+			// the client goes back to waiting although a Serial Notify has been delivered and no query was sent
+			p.notify_unanswered = false;
+			W.ctx.viol("C17", "notify-ignored", "C17:poll:serial-notify-not-followed-by-query",
+				   "socket %d consumed a Serial Notify while established but went on waiting (%lld s) instead of sending a Serial Query", p.si,
+				   (long long)timeout);
+		}
 		uint64_t wake = deadline;
 		if (!p.inq.empty() && p.inq.front().t < wake)
 			wake = p.inq.front().t;
@@ -317,6 +325,7 @@ int tr_send_sim(const void *sock, const void *pdu, const size_t len, const time_
 			W.ctx.count("probe_pdu_fragment_after_send_fault");
 		}
 		p.wait_returned_success = false; // the poll was attempted in time; the transport refused it
+		p.notify_unanswered = false;
 		return kind == "intr" ? TR_INTR : kind == "wouldblock" ? TR_WOULDBLOCK : TR_ERROR;
 	}
 	if (p.peer_closed && p.inq.empty()) {
@@ -817,6 +826,7 @@ static void oracle_on_query_locked(World &W, Peer &p, Exchange &x)
 		p.wait_returned_success = false;
 	}
 	p.open_since_query = false;
+	p.notify_unanswered = false;
 	p.pending_downgrade = 0;
 	x.at_query = b;
 	x.base_pfx = W.model_pfx[(size_t)si];
@@ -1241,6 +1251,7 @@ extern "C" int __wrap_rtr_wait_for_sync(struct rtr_socket *s)
 		return __real_rtr_wait_for_sync(s);
 	Peer &p = W->peers[(size_t)si];
 	p.in_wait = true;
+	p.hdr_seen_before_wait = p.hdr_seen;
 	p.wait_enter_ns = sim_now_ns();
 	p.sync_enter_consumed = p.consumed;
 	int rc = __real_rtr_wait_for_sync(s);
@@ -1251,10 +1262,15 @@ extern "C" int __wrap_rtr_wait_for_sync(struct rtr_socket *s)
 	p.wait_returned_success = rc == RTR_SUCCESS;
 	// did it consume a well-formed Serial Notify of the negotiated version?
 	p.notify_consumed = false;
-	if (rc == RTR_SUCCESS && p.consumed >= p.sync_enter_consumed + 12) {
+	if (p.consumed >= p.sync_enter_consumed + 12) {
 		const uint8_t *h = &p.in_stream[p.sync_enter_consumed];
-		if (h[1] == PDU_SERIAL_NOTIFY && get32(h + 4) == 12)
-			p.notify_consumed = true;
+		if (h[1] == PDU_SERIAL_NOTIFY && get32(h + 4) == 12 && h[0] == (uint8_t)W->belief[(size_t)si].version && p.hdr_seen_before_wait) {
+			if (rc == RTR_SUCCESS)
+				p.notify_consumed = true;
+			// whatever the function returned: C17 wants the poll "as soon as a Serial Notify arrives"
+			p.notify_unanswered = true;
+			W->ctx.count("probe_notify_consumed_while_established");
+		}
 	}
 	if (p.consumed > p.sync_enter_consumed) { // some PDU was received (possibly slowly) during this wait
 		p.stray_since_success = true;
